@@ -490,7 +490,7 @@ def gen_tb_cases(ctx: Ctx):
             yield {"kind": "tb", "pids": list(pids), "devs": [p for p in pids if isinstance(p, int) and 0 <= p < 1000][:2], "uri": "out.json"}
     ctx.extra["tb_exhaustive_upto_len"] = L
     rng = ctx.rng
-    for _ in range(ctx.n(600, 6000)):
+    for _ in range(ctx.n(1500, 12000)):
         R = rng.choice([1, 2, 2, 3, 3, 4, 5, 6, 7, 8, 8, 12])
         n = rng.randint(0, 60)
         mode = rng.random()
@@ -575,9 +575,11 @@ def gen_df_cases(ctx: Ctx):
                     d["args"] = dict(av or {})
                 evs.append({"d": d, "ph": None})
             yield {"kind": "df", "map": None, "events": evs}
-    for _ in range(ctx.n(500, 5000)):
+    for _ in range(ctx.n(1500, 12000)):
         n = rng.randint(0, 12)
         evs = [gen_df_event(rng) for _ in range(n)]
+        if evs and rng.random() < 0.3:       # the same slice twice (two identical kernels): still two rows
+            evs.insert(rng.randrange(len(evs) + 1), json.loads(json.dumps(rng.choice(evs))))
         if rng.random() < 0.6:
             m = None
         else:
@@ -600,7 +602,7 @@ def gen_e2e_cases(ctx: Ctx):
                 extra = rng.choice([[], [], ["-C", "coll_bw"], ["-C", "power_ts4", "coll_bw"], ["--keep_names"], ["-t"], ["--flow"]])
                 yield {"kind": "e2e-tb", "R": R, "groups": rng.randint(1, 2), "kernels": rng.randint(1, 3),
                        "seed": rng.randint(0, 10 ** 6), "opts": opts + extra, "bw": bw}
-    for _ in range(ctx.n(10, 150)):
+    for _ in range(ctx.n(40, 400)):
         yield {"kind": "e2e-tb", "R": rng.choice(ranks), "groups": rng.randint(0, 3), "kernels": rng.randint(1, 3),
                "seed": rng.randint(0, 10 ** 6), "bw": rng.choice([0, 0, 1, 3]),
                "opts": rng.choice([["--tb"], ["--tb", "-P", "everything"], ["--tb", "--disable_file"]]) +
@@ -640,8 +642,8 @@ def oracle_on_case(ctx: Ctx, case, verbose=False):
         if verbose:
             print("real:", {k: res[k] for k in ("rows", "columns", "complete")})
         wellformed = all(c == (j.get("ph") == "X") for c, j in zip(res["complete"], res["jsons"]))
-        if wellformed and case["map"] is None:
-            v = df_oracle(res["rows"], res["columns"], res["exported"])
+        if wellformed:      # row count for every column map; cell values for the built-in columns
+            v = df_oracle(res["rows"], res["columns"] if case["map"] is None else [], res["exported"])
             if v:
                 ctx.violation(v[0], v[1], case)
         paths = DEFAULT_PATHS if case["map"] is None else [p for p, _ in case["map"]]
